@@ -375,6 +375,10 @@ def rule_R5_history(ctx, prj, thorough: bool):
     for desc, text in (("empty file", ""), ("not JSON", "{ truncated"), ("JSON null", "null"), ("JSON list", "[]"), ("JSON object without keys", "{}"),
                        ("JSON number", "42"), ("JSON string", '"text"'), ("a blank", " "), ("a NUL byte", "\x00")):
         scenarios.append((f"cache document replaced by {desc}", S1.with_file(S.DOC, text)))
+    # documents longer than the one a scan writes (a writer that does not truncate leaves their tail behind)
+    scenarios.append(("cache document followed by a stray tail", S1.with_file(S.DOC, fresh + "\n}}}} stray tail " + "x" * 40)))
+    scenarios.append(("cache document replaced by garbage twice as long", S1.with_file(S.DOC, "#" * (2 * len(fresh)))))
+    scenarios.append(("cache document replaced by a longer JSON document of another shape", S1.with_file(S.DOC, json.dumps({"something": "else " * (len(fresh) // 4)}))))
     scenarios.append(("cache directory without the document", S1.with_file(S.DOC, None)))
     for m in want_files:
         if m != "codelimit.json":
